@@ -18,6 +18,17 @@ for mod,structs in by.items():
         n=s['name']; fs=s['fields']
         lay=' + '.join('%s::spec_ser_tagged(&v.%s, %s)' % (fty(f), f['name'], tagopt(f)) for f in fs) or 'Seq::<u8>::empty()'
         pre=' && '.join('%s::ser_pre(&v.%s, %s)' % (fty(f), f['name'], tagopt(f)) for f in fs) or 'true'
+        tagged=[f for f in fs if f['tag'] is not None]
+        reqt=[f['tag'] for f in tagged if not (f['type'].startswith('Option<') or f['type'].startswith('Vec<'))]
+        req=('set![' + ', '.join('%du16' % x for x in reqt) + ']') if reqt else 'Set::<u16>::empty()'
+        reqasserts=''.join('assert(!%s.difference(seen).contains(%du16)); ' % (req, x) for x in reqt)
+        arms=''.join(f"""        //@ before ({f['name']},bytes)=<
+        //@ tag tags.no_second_dispatch.{f['name']} C13
+            proof {{ assert(!seen.contains({f['tag']}u16)); seen = seen.insert({f['tag']}u16) ; }}
+        //@ before returnErr(zvt_builder::ZVTError::DuplicateTag(zvt_builder::Tag({f['tag']}u16)
+        //@ tag tags.duplicate_error_is_true.{f['name']} C13
+            proof {{ assert(seen.contains({f['tag']}u16)) ; }}
+""" for f in tagged)
         tags='[' + ', '.join(str(f['tag']) for f in fs if f['tag'] is not None) + ']'
         out.append(f'''    // ------------------------------------------------------------------ {mod}::{n}
     //@ item {MODS[mod]} | struct {n}
@@ -40,10 +51,31 @@ for mod,structs in by.items():
                 invariant
                     crate::is_tail(bytes@, bytes0), crate::frame::tail_base(bytes0), bytes@.len() <= bytes0.len(),
                     curr_len <= usize::MAX,
+        //@ tag tags.bookkeeping C13
+                    actual_tags@ =~= seen,
+                    required_tags@ =~= {req}.difference(seen),
+        //@ tag tags.loop.decreases C02
                 decreases bytes@.len() + (if curr_len != bytes@.len() {{ 1nat }} else {{ 0nat }}),
         //@ entry
             let ghost bytes0 = bytes@;
+            let ghost mut seen: Set<u16> = Set::<u16>::empty();
             proof {{ lemma_slice_len_le_isize_max(bytes); crate::frame::lemma_tail_base(bytes0); }}
+{arms}        //@ before letmutas_vec
+            let ghost req_left = required_tags@;
+        //@ before returnErr(zvt_builder::ZVTError::MissingRequiredTags
+        //@ tag tags.missing_names_all C13
+            proof {{
+                assert(req_left =~= {req}.difference(seen));
+                assert forall|i: int| 0 <= i < as_vec@.len() implies {req}.contains((#[trigger] as_vec@[i]).0) && !seen.contains(as_vec@[i].0) by {{
+                    assert(req_left.contains(as_vec@[i].0));
+                }}
+                assert forall|t: u16| {req}.contains(t) && !seen.contains(t) implies exists|i: int| 0 <= i < as_vec@.len() && (#[trigger] as_vec@[i]).0 == t by {{
+                    assert(req_left.contains(t));
+                }}
+            }}
+        //@ tail
+        //@ tag tags.ok_only_if_all_mandatory C13
+            proof {{ {reqasserts}assert({req}.subset_of(seen)); }}
         //@ end
         proof fn law_dec_bounds(b: Seq<u8>) {{}}
         proof fn law_dec_frame(b: Seq<u8>, s: Seq<u8>) {{}}
